@@ -182,6 +182,8 @@ Mutants tried (scratch worktree /tmp/wt-C08, VERIF_REPO), all reported VIOLATION
                                                             truncated source: save succeeds with an incomplete file)
   seeded C08-r5m1 (ir.save removes join(base_dir, external_data) when onnx.save fails) -> oracle replay (model-file
                                                             failure after the data write: destination data file missing)
+  seeded C08-r6m1 (mkdtemp replaced by a stable `.<file>.tmp` directory, makedirs exist_ok) -> oracle replay (a pre-existing
+                                                            `.<file>.tmp/<file>` is clobbered / removed: pre-existing path changed)
 Unchanged tree: quiet for VERIF_SEED 0..4 (two `fixed:` lines).
 """
 
@@ -788,6 +790,19 @@ def gen_scenario(rng, sharded: bool = False) -> dict:
             t = {"kind": "ext", "file": "b/m.data", "base": "b", "off": rng.randrange(0, 20 - ln + 1), "len": ln,
                  "preload": rng.random() < 0.5}
             tensors.insert(rng.randrange(len(tensors) + 1), t)
+    if not sharded and rng.random() < 0.25:
+        # a stale hidden directory with a STABLE name next to the destination (left by something else, or by a
+        # killed earlier run of a tool that used such a name): a save picks a fresh mkdtemp name and never touches it
+        ddir, dbase = ("", "m.data")
+        if dest_kind == "symlink":
+            ddir, dbase = os.path.dirname(tgt), os.path.basename(tgt)
+        elif dest_kind == "subdir":
+            ddir = "w"
+        stale = os.path.join(ddir, f".{dbase}.tmp")
+        dirs.append(stale)
+        files[os.path.join(stale, dbase)] = {"kind": "file", "bytes": [66, 66, 66, 66, 66], "mode": rng.choice([0o644, 0o444])}
+        if rng.random() < 0.5:
+            files[os.path.join(stale, "keep.txt")] = {"kind": "file", "bytes": [1, 2], "mode": 0o644}
     if dest_kind == "hardlink" and not sharded:
         # tensors constructed programmatically (absolute location, no base_dir, so the hard-link containment check
         # does not apply): one reading through the OTHER hard link, one through the destination path itself
